@@ -242,6 +242,13 @@ def replay(data) -> int:
     c = Case(P.PySpec(d['notation'], d.get('auto_preds', True), d.get('drop_parens', True)), d.get('store', '-'),
              d['texts'], 'replay')
     ans, fails = oracle(c)
+    if not fails and 'RecursionError' in data.get('key', '') and len(c.texts) == 1 and len(set(c.texts[0])) == 1:
+        # where exactly the stack runs out depends on the caller's own depth: scan the run length
+        for k in range(40, 600):
+            c = Case(c.spec, c.store, [c.texts[0][0] * k], 'replay')
+            ans, fails = oracle(c)
+            if fails:
+                break
     for key, what in fails:
         print(f'{key}: {what}')
     print('answers:', [a[:120] for a in ans][:5])
